@@ -112,7 +112,7 @@ func c15Constructors() ([]Finding, int) {
 func c15Lifecycle(level int) ([]Finding, []interface{}) {
 	var fs []Finding
 	var samples []interface{}
-	counts := []int{1, 2, 8}
+	counts := []int{1, 2, 8, 20}
 	for _, n := range counts {
 		for _, withEntries := range []bool{false, true} {
 			for twin := 0; twin < 2; twin++ {
@@ -196,6 +196,29 @@ func c15Lifecycle(level int) ([]Finding, []interface{}) {
 					problem = "the janitor did not take a tick although the cache is still reachable"
 				} else if c.Count() != 1 || evicted != 1 {
 					problem = fmt.Sprintf("after a tick Count=%d (want 1), callbacks=%d (want 1)", c.Count(), evicted)
+				}
+				// a long life: 60 more ticks, an entry expiring before each, the callback swapped every 15 ticks
+				evicted2 := 0
+				for round := 1; round <= 60 && problem == ""; round++ {
+					if round%15 == 0 {
+						if round%30 == 0 {
+							c.SetEvictedCallback(func(k, v int) { evicted++ })
+						} else {
+							c.SetEvictedCallback(func(k, v int) { evicted2++ })
+						}
+					}
+					before := evicted + evicted2
+					c.Set(round%3+2, round, 1)
+					vtime.VAdvance(2)
+					if tk[0].Stopped() || !tk[0].Fire(20*time.Second) || !waitJanitorsIdle() {
+						problem = fmt.Sprintf("the janitor stopped taking ticks after %d ticks", round)
+					} else if c.Count() != 1 || evicted+evicted2 != before+1 {
+						problem = fmt.Sprintf("tick %d: Count=%d (want 1), callbacks so far %d (want %d)", round+1, c.Count(), evicted+evicted2, before+1)
+					}
+				}
+				// first callback: the first tick, rounds 1-14, 30-44 and 60; second callback: rounds 15-29 and 45-59
+				if problem == "" && (evicted != 1+14+15+1 || evicted2 != 15+15) {
+					problem = fmt.Sprintf("callbacks in force were told %d and %d evictions, want 31 and 30", evicted, evicted2)
 				}
 			}
 			samples = append(samples, map[string]interface{}{"alive_after_gc": cfg.String(), "problem": problem})
